@@ -1,4 +1,5 @@
 import TnVerif.Lemmas.Tools
+import TnVerif.Lemmas.Broadcast
 import TnVerif.Model.Anova
 import Mathlib.Algebra.Field.Basic
 import Mathlib.Tactic.FieldSimp
@@ -119,5 +120,154 @@ theorem anova_dense (t : Tensor R) : ∀ (ws : List (Nat → R)) (idx : List Nat
   unfold Tensor.dense
   rw [hm]
   exact dense_linModes t _ idx (by simp [hw]) hi
+
+
+/-! ### tensor level: `undo_anova_decomposition ∘ anova_decomposition = id` -/
+
+/-- mode-by-mode left inverses -/
+def LeftInv : List (Option (Nat × (Nat → Nat → R))) → List (Option (Nat × (Nat → Nat → R))) → List Nat → Prop
+  | some (_, B) :: Bs, some (_, A) :: As, n :: ns =>
+      (∀ i, i < n → ∀ j, j < n → (∑ r ∈ range (n + 1), B i r * A r j) = if i = j then 1 else 0) ∧ LeftInv Bs As ns
+  | [], [], [] => True
+  | _, _, _ => False
+
+theorem applyMaps_leftInv : ∀ (Bs As : List (Option (Nat × (Nat → Nat → R)))) (ns : List Nat) (f : List Nat → R) (is : List Nat),
+    LeftInv Bs As ns → inShape is ns →
+    applyMaps Bs (ns.map (· + 1)) (applyMaps As ns f) is = f is := by
+  intro Bs
+  induction Bs with
+  | nil =>
+    intro As ns f is h hi
+    cases As with
+    | nil => cases ns with
+      | nil => cases is with
+        | nil => simp [applyMaps]
+        | cons _ _ => simp [inShape] at hi
+      | cons _ _ => simp [LeftInv] at h
+    | cons _ _ => simp [LeftInv] at h
+  | cons Bo Bs ih =>
+    intro As ns f is h hi
+    cases Bo with
+    | none => simp [LeftInv] at h
+    | some Bp =>
+      obtain ⟨rb, B⟩ := Bp
+      cases As with
+      | nil => simp [LeftInv] at h
+      | cons Ao As =>
+        cases Ao with
+        | none => simp [LeftInv] at h
+        | some Ap =>
+          obtain ⟨ra, A⟩ := Ap
+          cases ns with
+          | nil => simp [LeftInv] at h
+          | cons n ns =>
+            cases is with
+            | nil => simp [inShape] at hi
+            | cons i is =>
+              obtain ⟨hinv, hrest⟩ := h
+              obtain ⟨hi0, hi'⟩ := hi
+              simp only [List.map_cons, applyMaps]
+              have e : ∀ r ∈ range (n + 1),
+                  B i r * applyMaps Bs (ns.map (· + 1)) (fun js => ∑ j ∈ range n, A r j * applyMaps As ns (fun ks => f (j :: ks)) js) is
+                    = ∑ j ∈ range n, (B i r * A r j) * f (j :: is) := by
+                intro r _
+                rw [applyMaps_linear Bs (ns.map (· + 1)) is n (fun j => A r j) (fun j js => applyMaps As ns (fun ks => f (j :: ks)) js),
+                  Finset.mul_sum]
+                apply Finset.sum_congr rfl; intro j _
+                rw [ih As ns (fun ks => f (j :: ks)) is hrest hi']; ring
+              rw [Finset.sum_congr rfl e, Finset.sum_comm]
+              have e2 : ∀ j ∈ range n, (∑ r ∈ range (n + 1), B i r * A r j * f (j :: is)) = (if i = j then 1 else 0) * f (j :: is) := by
+                intro j hj; rw [← Finset.sum_mul, hinv i hi0 j (Finset.mem_range.mp hj)]
+              rw [Finset.sum_congr rfl e2, Finset.sum_eq_single i]
+              · simp
+              · intro j _ hne; simp [Ne.symm hne]
+              · intro hh; exact absurd (Finset.mem_range.mpr hi0) hh
+
+theorem applyMaps_congr_len : ∀ (ls : List (Option (Nat × (Nat → Nat → R)))) (ns is : List Nat) (f g : List Nat → R),
+    ls.length = ns.length → is.length = ns.length → (∀ js, js.length = ns.length → f js = g js) →
+    applyMaps ls ns f is = applyMaps ls ns g is := by
+  intro ls
+  induction ls with
+  | nil =>
+    intro ns is f g hl hi h
+    have hn : ns = [] := List.length_eq_zero_iff.mp hl.symm
+    subst hn
+    have : is = [] := List.length_eq_zero_iff.mp hi
+    subst this
+    simpa [applyMaps] using h [] rfl
+  | cons l ls ih =>
+    intro ns is f g hl hi h
+    cases ns with
+    | nil => simp at hl
+    | cons n ns =>
+      cases is with
+      | nil => simp at hi
+      | cons i is =>
+        cases l with
+        | none =>
+          simp only [applyMaps]
+          exact ih ns is _ _ (by simpa using hl) (by simpa using hi) (fun js hj => h (i :: js) (by simp [hj]))
+        | some p =>
+          obtain ⟨rows, L⟩ := p
+          simp only [applyMaps]
+          apply Finset.sum_congr rfl; intro j _
+          rw [ih ns is _ _ (by simpa using hl) (by simpa using hi) (fun js hj => h (j :: js) (by simp [hj]))]
+
+theorem anova_n (wn : Nat → R) (m : TMode R) : (m.anova wn).n = m.n + 1 := by
+  obtain ⟨c, U⟩ := m
+  cases U <;> simp [TMode.anova, TMode.n, Fac.lmul]
+
+theorem anova_shape (t : Tensor R) : ∀ (ws : List (Nat → R)), ws.length = t.length → (t.anova ws).shape = t.shape.map (· + 1) := by
+  induction t with
+  | nil => intro ws _; cases ws <;> rfl
+  | cons m ms ih =>
+    intro ws hw
+    cases ws with
+    | nil => simp at hw
+    | cons w ws =>
+      simp only [Tensor.anova, Tensor.shape, List.map_cons, anova_n, List.cons.injEq, true_and]
+      exact ih ws (by simpa using hw)
+
+theorem undoAnova_linModes (a : Tensor R) : a.undoAnova = a.linModes (a.map fun m => some (m.n - 1, undoL)) := by
+  induction a with
+  | nil => rfl
+  | cons m ms ih => simp only [Tensor.undoAnova, List.map_cons, Tensor.linModes] at ih ⊢; rw [ih]; rfl
+
+theorem leftInv_anova (t : Tensor R) : ∀ (ws : List (Nat → R)), ws.length = t.length →
+    LeftInv ((t.anova ws).map fun m => some (m.n - 1, undoL))
+      (List.zipWith (fun w (m : TMode R) => some (m.n + 1, anovaL m.n (normW m.n w))) ws t) t.shape := by
+  induction t with
+  | nil => intro ws _; cases ws <;> simp [Tensor.anova, LeftInv, Tensor.shape]
+  | cons m ms ih =>
+    intro ws hw
+    cases ws with
+    | nil => simp at hw
+    | cons w ws =>
+      simp only [Tensor.anova, List.map_cons, List.zipWith_cons_cons, Tensor.shape, LeftInv]
+      exact ⟨fun i hi j _ => undo_anova_matrix m.n _ i j hi, ih ws (by simpa using hw)⟩
+
+/-- **`undo_anova_decomposition(anova_decomposition(t)) = t`** on the dense arrays, for every format, any marginals -/
+theorem undo_anova_dense (t : Tensor R) (ws : List (Nat → R)) (idx : List Nat) (hw : ws.length = t.length)
+    (hidx : inShape idx t.shape) : ((t.anova ws).undoAnova).dense idx = t.dense idx := by
+  have hlen : ∀ (is ss : List Nat), inShape is ss → is.length = ss.length := by
+    intro is
+    induction is with
+    | nil => intro ss h; cases ss with
+      | nil => rfl
+      | cons _ _ => simp [inShape] at h
+    | cons i is ih => intro ss h; cases ss with
+      | nil => simp [inShape] at h
+      | cons s ss => simp [ih ss h.2]
+  have hil : idx.length = t.length := by rw [hlen idx t.shape hidx]; simp [Tensor.shape]
+  have hal : (t.anova ws).length = t.length := by
+    have := congrArg List.length (anova_shape t ws hw); simpa [Tensor.shape] using this
+  rw [undoAnova_linModes]
+  unfold Tensor.dense
+  rw [dense_linModes (t.anova ws) _ idx (by simp) (by rw [hal, hil]), anova_shape t ws hw]
+  rw [applyMaps_congr_len _ (t.shape.map (· + 1)) idx (fun js => dense (t.anova ws).modes js)
+    (applyMaps (List.zipWith (fun w (m : TMode R) => some (m.n + 1, anovaL m.n (normW m.n w))) ws t) t.shape t.dense)
+    (by simp [hal, Tensor.shape]) (by simp [hil, Tensor.shape])
+    (fun js hj => anova_dense t ws js hw (by simpa [Tensor.shape] using hj))]
+  exact applyMaps_leftInv _ _ t.shape t.dense idx (leftInv_anova t ws hw) hidx
 
 end TN.C10
